@@ -33,7 +33,7 @@ ANCHORS = [("octave_mcp/mcp/write.py", "WriteTool._validate_path"), ("octave_mcp
 
 # ---- the segment alphabet of the property ------------------------------------------------------
 # existing objects of the base tree (harness/paths_fs.template) ...
-SEG_TREE = ["f.md", "g.oct.md", "h.txt", "U.MD", "d", "ld", "lin", "lf.md", "lfi.md", "dang.md", "dangd", "loop.md", "up", "trick.md"]
+SEG_TREE = ["f.md", "g.oct.md", "h.txt", "U.MD", "d", "ld", "lin", "lf.md", "lfi.md", "dang.md", "dangd", "loop.md", "up", "trick.md", "selfmiss.md"]
 # ... new names with allowed / disallowed / compound / upper-case / odd extensions, specials
 SEG_NEW = ["n.md", "n.txt", "n.oct.md", "n.octave", "n.MD", "n", ".md", "a.md.", "n.oct.txt", "é.md", "a.md ", "x.mdx"]
 SEG_SPECIAL = [".", "..", "", "z\x00.md", P.LONG_BAD, P.LONG_OK]
@@ -62,7 +62,13 @@ def dangling_symlink_component(rec) -> bool:
     return bool(rec["cls"]["dangling"])
 
 
-CLASSES = {"dangling_symlink_component": dangling_symlink_component}
+def uri_resolution_meets_symlink_loop(rec) -> bool:
+    """F60: resolving base/uri runs into a symlink cycle (decided by the Lean model on the snapshot of the tree:
+    `Octave.uriMeetsLoop`, the predicate negated in the hypothesis of C19_source_uri_partial)."""
+    return bool(rec.get("model_loop"))
+
+
+CLASSES = {"dangling_symlink_component": dangling_symlink_component, "uri_resolution_meets_symlink_loop": uri_resolution_meets_symlink_loop}
 
 
 # ---- oracle on the results of one chunk ---------------------------------------------------------
@@ -131,5 +137,320 @@ def compare_paths(ctx, job, out, replies):
                 ctx.count(f"reason_differs:{copy}:{m}/{reason}")
 
 
+# ---- job construction ---------------------------------------------------------------------------
+
+def chunked(xs, n):
+    return [xs[i:i + n] for i in range(0, len(xs), n)]
+
+
+def path_jobs(ctx):
+    """[(job)] for the path validators / tools.  Counts depend on tier, widen and seed only."""
+    wide = ctx.thorough or ctx.widen > 1
+    rng = ctx.rng
+    jobs = []
+    segs = SEGS_T if wide else SEGS_Q
+    # (1) exhaustive, validators only (cheap): relative depth<=3 (4 thorough), absolute depth<=2 (3 thorough)
+    d_rel, d_abs = (4, 3) if ctx.thorough else (3, 2)
+    if ctx.thorough:
+        rel = list(enum_paths(SEGS_T, 3, False)) + list(enum_paths(SEGS_Q, 4, False))
+    else:
+        rel = list(enum_paths(segs, d_rel, False))
+    val_paths = rel + list(enum_paths(segs, d_abs, True)) + EXTRA_PATHS
+    for k, ch in enumerate(chunked(val_paths, 6000)):
+        jobs.append({"kind": "base", "seed": 0, "paths": ch, "tools": False, "tag": f"v{k}"})
+    # (2) tools driven: all depth<=2 (relative and absolute) + extras + a seeded sample of deeper paths
+    tool_paths = list(enum_paths(segs, 2, False)) + list(enum_paths(segs, 1, True)) + EXTRA_PATHS
+    n_sample = ctx.budget(2500, 40000)
+    deep_pool_depth = 4 if ctx.thorough else 3
+    for _ in range(n_sample):
+        n = rng.randint(3, deep_pool_depth)
+        tup = [rng.choice(segs) for _ in range(n)]
+        tool_paths.append(("{SB}/" if rng.random() < 0.25 else "") + "/".join(tup))
+    for k, ch in enumerate(chunked(tool_paths, 250)):
+        jobs.append({"kind": "base", "seed": 0, "paths": ch, "tools": True, "tag": f"t{k}"})
+    # (3) random trees (random link targets): validators on exhaustive depth<=2 + sample, tools on a sample
+    n_trees = ctx.budget(6, 40)
+    rsegs = P.LINK_NAMES + ["f.md", "d", "h.txt", "n.md", "..", ".", "", "n.txt", "z\x00.md"]
+    for t in range(n_trees):
+        seed = rng.randrange(1 << 30)
+        ps = list(enum_paths(rsegs, 2, False)) + ["/".join(rng.choice(rsegs) for _ in range(rng.randint(3, 4))) for _ in range(600)]
+        jobs.append({"kind": "rand", "seed": seed, "paths": ps, "tools": False, "tag": f"r{t}"})
+        jobs.append({"kind": "rand", "seed": seed, "paths": rng.sample(ps, 120), "tools": True, "tag": f"rt{t}"})
+    return jobs
+
+
+SCHEMA_ALPHABET = ["A", "a", "0", "_", ".", "/", "-", "\\", "\n", "É"]
+SCHEMA_EXTRA = ["META", "SESSION_LOG", "A\n", "A\n\n", "\nA", "A\r", "A\x00", "Z9_", "AZ", "aA", "À", "Ａ", "A１", "A/../../secret", "../secret", "A.oct.md", "A/", "/A", "A\\..\\x",
+                "A" * 300, "A_" * 10, "A\n.oct.md", "A b", " A", "A ", "A\t", "A\u2028", "0A", "_A"]
+
+
+def schema_names(ctx):
+    n = 6 if ctx.thorough else (5 if ctx.widen > 1 else 4)
+    out = list(SCHEMA_EXTRA)
+    for k in range(0, n + 1):
+        out += ["".join(t) for t in itertools.product(SCHEMA_ALPHABET, repeat=k)]
+    return out
+
+
+FROZEN_REFS = ["frozen@sha256:{good}", "frozen@sha256:{good:U}", "frozen@sha256:{good:M}", "frozen@sha256:{tampered}", "frozen@sha256:{tampered:U}",
+               "frozen@sha256:{collide}", "frozen@sha256:{collide_tail}", "frozen@sha256:{missing}", "frozen@sha256:{dir}", "latest", "latest\n", " latest", "LATEST", "",
+               "frozen@sha256:", "frozen@", "frozen", "frozen@sha256:{good}\n", " frozen@sha256:{good}", "frozen@sha256:{good} ", "frozen@SHA256:{good}", "Frozen@sha256:{good}",
+               "frozen@sha256:{good}0", "frozen@sha256:{good}/", "frozen@sha256:{good}/../x", "frozen@sha256:../../out/secret.md", "frozen@sha256:../../../../../../etc/passwd",
+               "frozen@sha256:" + ("../" * 22)[:64], "frozen@sha256:" + "g" * 64, "frozen@sha256:" + "0" * 63, "frozen@sha256:" + "0" * 65, "frozen@sha256:" + "0" * 16,
+               "frozen@sha256:" + "\u0660" * 64, "frozen@sha256:" + "\uff41" * 64, "frozen@sha256:" + "0" * 63 + "\x00", "frozen@sha256:" + "0" * 32 + "\x00" + "0" * 31,
+               "frozen@sha256:" + "0" * 63 + "/", "frozen@sha256:" + "." * 64, "frozen@sha256:" + "/" * 64, "frozen@sha256:sha256:{good}", "frozen@sha256:{good}{good}",
+               "frozen@md5:{good}", "sha256:{good}", "{good}"]
+
+
+def frozen_refs(ctx):
+    refs = list(FROZEN_REFS)
+    # single-character mutations of the good reference at every position (hex / non-hex / path characters)
+    for pos in range(0, 64, 1 if ctx.thorough or ctx.widen > 1 else 5):
+        for ch in ("0", "f", "F", "g", "/", ".", "\n"):
+            refs.append("frozen@sha256:{good@%d=%s}" % (pos, ch))
+    return refs
+
+
+URI_SEGS = ["f.md", "d", "ld", "lin", "lf.md", "lfi.md", "dang.md", "dangd", "loop.md", "up", "trick.md", "n.md", ".", "..", "", "z\x00.md", "C:", "h.txt"]
+URI_EXTRA = ["loop.md/../lf.md", "trick.md/../lf.md", "loop.md/../ld/secret.md", "loop.md/../f.md", "d/loop.md/../../lf.md", "", "/", "/etc/passwd", "{SB}/f.md", "C:/x", "C:", "c:\\x", "a:", ":", "x:", "../sb/f.md", "../out/secret.md", "../../x", "up/out/secret.md", "up/sb/f.md",
+             "d/../../out/secret.md", "d/up/f.md", "d/up/../../out/f.md", "lin/../f.md", "ld/../sb/f.md", "ld/secret.md", "lf.md", "lfi.md", "dang.md", "loop.md/x", "trick.md",
+             "f.md/..", "f.md/../f.md", "n/../f.md", "n/../../out/f.md", ".//f.md", "d//f.md", "\x00", "d/\x00/../f.md", " /etc/passwd", "~/x", "d/" + P.LONG_BAD, P.LONG_BAD + "/../f.md"]
+
+
+def uri_list(ctx):
+    d = 3 if ctx.thorough or ctx.widen > 1 else 2
+    return list(URI_EXTRA) + ["/".join(t) for n in range(1, d + 1) for t in itertools.product(URI_SEGS, repeat=n)]
+
+
+def comps(path: str):
+    return [c for c in path.split("/") if c]
+
+
+# ---- stages -------------------------------------------------------------------------------------
+
+def stage_paths(ctx, drv, findings):
+    jobs = path_jobs(ctx)
+    outs = vlib.pmap(PW.run_paths_chunk, jobs, chunksize=1)
+    batches = []
+    for job, out in zip(jobs, outs):
+        cwd = out["cwd"]
+        batches.append([{"op": "fs", "nodes": out["nodes"], "cwd": comps(cwd)}] + [{"op": "vp", "p": r["p"].replace("{SB}", cwd)} for r in out["results"]])
+    replies = model_batches(drv, batches)
+    for job, out, rep in zip(jobs, outs, replies):
+        compare_paths(ctx, job, out, rep[1:])
+        for rec in out["results"]:
+            depth = len([c for c in rec["p"].replace("{SB}/", "").split("/")])
+            ctx.case({"path": rec["p"][:120], "tree": job["kind"], "seed": job["seed"], "tools": job["tools"]},
+                     nontrivial=bool(rec["p"]))
+            if not job["tools"]:
+                ctx.count(f"path_depth:{min(depth, 5)}")
+                c = rec["cls"]
+                ctx.count("class:" + ("dotdot" if c["dotdot"] else "dangling" if c["dangling"] else "symlink" if c["symlink"] else "bad_ext" if c["bad_ext"] else "acceptable"))
+            elif not rec.get("driven", True):
+                ctx.count("tools_not_driven(lexically outside the private temp dir)")
+            judge(ctx, rec, job, findings)
+
+
+def stage_schema(ctx, drv):
+    names = schema_names(ctx)
+    jobs = [{"names": ch, "tag": f"s{k}"} for k, ch in enumerate(chunked(names, max(2000, len(names) // (vlib.NCPU * 2) + 1)))]
+    outs = vlib.pmap(PW.run_schema_chunk, jobs, chunksize=1)
+    batches = []
+    for job, out in zip(jobs, outs):
+        dirs = [comps(d) for d in out["dirs_impl"]]
+        batches.append([{"op": "fs", "nodes": out["nodes"], "cwd": comps(out["cwd"])}] + [{"op": "schema", "dirs": dirs, "n": n} for n in job["names"]])
+    replies = model_batches(drv, batches)
+    for job, out, rep in zip(jobs, outs, replies):
+        if out["dirs_impl"] != out["dirs_expected"]:
+            ctx.failures.append({"case": {"cwd": out["cwd"]}, "why": f"get_schema_search_paths() = {out['dirs_impl']} but the packaged/project schema directories are {out['dirs_expected']}",
+                                 "why_class": "schema-search-paths"})
+        dirs = out["dirs_impl"]
+        allowed_dirs = {os.path.realpath(d) for d in out["dirs_expected"]}
+        for r, m in zip(out["results"], rep[1:]):
+            case = {"schema_name": r["n"]}
+            ctx.case(case, nontrivial=bool(r["n"]))
+            ctx.count("schema:" + r["kind"].split(":")[0] + ("" if not r["stat"] else ":probed"))
+            probed = [q for q in r["stat"] if q not in dirs]
+            dedup = [q for i, q in enumerate(probed) if i == 0 or probed[i - 1] != q]
+            opened = [e[1] for e in r["open"] if e[0].startswith("open")]
+            # oracle: whatever is probed or opened is a direct child of a schema directory
+            for q in probed + opened:
+                par = os.path.realpath(os.path.dirname(os.path.abspath(q)))
+                if par not in allowed_dirs or os.path.basename(q) in ("", ".", ".."):
+                    ctx.failures.append({"case": case, "why": f"load_schema_by_name touched {q!r}, which is not a file directly inside a schema directory",
+                                         "why_class": "schema-escape", "observed": {"stat": probed, "open": opened}})
+                    break
+            mut = [e for e in r["open"] if not e[0].startswith("open-r")]
+            if mut:
+                ctx.failures.append({"case": case, "why": f"load_schema_by_name performed a mutating file operation {mut[:3]}", "why_class": "schema-mutates"})
+            # correspondence: probe sequence and opened file
+            if "unsupported" in m:
+                ctx.count("model_unsupported")
+                continue
+            m_probed = ["/" + "/".join(q) for q in m["probed"]]
+            m_opened = ["/" + "/".join(m["opened"])] if m["opened"] is not None else []
+            if m_probed != dedup or m_opened != opened[:1] or len(opened) > 1:
+                ctx.corr_disagreements.append({"case": case, "model": {"probed": m_probed, "opened": m_opened}, "impl": {"probed": dedup, "opened": opened},
+                                               "view": "paths probed with exists() and the file opened by load_schema_by_name"})
+
+
+def stage_frozen(ctx, drv):
+    import re as _re
+    refs = frozen_refs(ctx)
+    jobs = [{"refs": refs, "with_default": wd} for wd in (True, False)]
+    outs = vlib.pmap(PW.run_frozen_chunk, jobs, chunksize=1)
+    batches = [[{"op": "fs", "nodes": out["nodes"], "cwd": comps(out["root"] + "/sb"), "H": out["H"]}] +
+               [{"op": "frozen", "cache": comps(out["cache"]), "ref": r["ref"]} for r in out["results"]] for out in outs]
+    replies = model_batches(drv, batches)
+    for job, out, rep in zip(jobs, outs, replies):
+        for r, m in zip(out["results"], rep[1:]):
+            case = {"standard_ref": r["ref"], "with_default": job["with_default"]}
+            ctx.case(case)
+            ctx.count("frozen:" + r["res"][0])
+            shape = _re.fullmatch(r"frozen@sha256:([0-9a-fA-F]{64})", r["ref"], _re.ASCII)
+            if r["res"][0] == "ok" and r["ref"].startswith("frozen@"):
+                q = r["res"][1]
+                if not shape:
+                    ctx.failures.append({"case": case, "why": f"a reference that is not frozen@sha256:<64 hex> resolved to {q}", "why_class": "frozen-shape"})
+                elif os.path.dirname(q) != out["cache"]:
+                    ctx.failures.append({"case": case, "why": f"frozen reference resolved to {q}, not a file of the cache directory", "why_class": "frozen-escape"})
+                elif r["sha"] != shape.group(1).lower():
+                    ctx.failures.append({"case": case, "why": f"frozen reference resolved to {q} whose bytes hash to {r['sha']}", "why_class": "frozen-hash"})
+            bad = [e for e in r["open"] if not P.inside(e[2], out["cache"])]
+            if bad:
+                ctx.failures.append({"case": case, "why": f"resolve_hermetic_standard opened {bad[:3]} outside the cache directory", "why_class": "frozen-open-outside"})
+            if "unsupported" in m:
+                ctx.count("model_unsupported")
+                continue
+            if r["res"][0] == "raise":
+                if m["r"] != "io":
+                    ctx.corr_disagreements.append({"case": case, "model": m, "impl": r["res"], "view": "outcome of resolve_hermetic_standard"})
+                continue
+            mv = [m["r"]] + (["/" + "/".join(m["q"])] if m["r"] == "ok" else [])
+            if mv != r["res"]:
+                ctx.corr_disagreements.append({"case": case, "model": mv, "impl": r["res"], "view": "outcome (and path) of resolve_hermetic_standard"})
+
+
+def stage_uri(ctx, drv, findings):
+    uris = uri_list(ctx)
+    jobs = [{"kind": "base", "seed": 0, "base": b, "uris": ch} for b in ("", "d", "d/d") for ch in chunked(uris, 1500)]
+    n_rand = ctx.budget(4, 24)
+    for _ in range(n_rand):
+        jobs.append({"kind": "rand", "seed": ctx.rng.randrange(1 << 30), "base": ctx.rng.choice(["", "d"]),
+                     "uris": ["/".join(ctx.rng.choice(P.LINK_NAMES + ["f.md", "d", "..", ".", "", "n.md"]) for _ in range(ctx.rng.randint(1, 4))) for _ in range(400)]})
+    outs = vlib.pmap(PW.run_uri_chunk, jobs, chunksize=1)
+    batches = [[{"op": "fs", "nodes": out["nodes"], "cwd": comps(out["sb"])}] +
+               [{"op": "uri", "base": comps(out["base"]), "u": r["u"].replace("{SB}", out["sb"])} for r in out["results"]] for out in outs]
+    replies = model_batches(drv, batches)
+    for job, out, rep in zip(jobs, outs, replies):
+        for r, m in zip(out["results"], rep[1:]):
+            case = {"source_uri": r["u"], "base": job["base"], "tree": job["kind"], "tree_seed": job["seed"]}
+            ctx.case(case, nontrivial=bool(r["u"]))
+            ctx.count("uri:" + r["res"][0])
+            ctx.count("snapshot:" + r["snap_status"].split(":")[0])
+            fails = []
+            if r["res"][0] == "ok" and not P.inside(r["res"][1], out["realbase"]):
+                fails.append(("uri-escape", f"validate_source_uri returned {r['res'][1]}, outside the base {out['realbase']}"))
+            elif r["res"][0] == "ok" and r["link_prefix"] and not P.inside(r["result_real"], out["realbase"]):
+                fails.append(("uri-unresolved", f"validate_source_uri returned {r['res'][1]}, whose component {r['link_prefix']} is a symlink to {r['link_real']}: the URI resolves outside the base"))
+            if r["opened_outside"]:
+                fails.append(("uri-open-outside", f"_check_single_snapshot opened {r['opened_outside']} outside the base {out['realbase']}"))
+            rec = {"model_loop": m.get("loop") if isinstance(m, dict) else None}
+            for why_class, why in fails:
+                hit = [f for f in findings if f["cls"] == "uri_resolution_meets_symlink_loop" and CLASSES[f["cls"]](rec)]
+                if hit:
+                    ctx.known_hits[hit[0]["id"]] = ctx.known_hits.get(hit[0]["id"], 0) + 1
+                else:
+                    ctx.failures.append({"case": case, "why": why, "why_class": why_class, "observed": r})
+            if "unsupported" in m:
+                ctx.count("model_unsupported")
+                continue
+            if m["r"] == "fuel":
+                ctx.count("model_out_of_fuel")
+                continue
+            mv = [m["r"]] + (["/" + "/".join(m["q"])] if m["r"] == "ok" else [])
+            iv = ["loopRaise"] if r["res"][0] == "raise" else r["res"]
+            if mv != iv:
+                ctx.corr_disagreements.append({"case": case, "model": mv, "impl": r["res"], "view": "outcome (and resolved path) of validate_source_uri"})
+
+
+def replay_findings(ctx, findings):
+    """Replay the stored witnesses of the open findings on the real code (validators + tools)."""
+    for f in findings:
+        w = f["witness"]
+        if "uris" in w:
+            out = PW.run_uri_chunk({"kind": w.get("tree", "base"), "seed": w.get("tree_seed", 0), "base": w.get("base", ""), "uris": list(w["uris"])})
+            details = [f"{r['u']}: validate_source_uri -> {r['res'][1].replace(out['sb'], '{SB}')} (a link to {str(r['link_real']).replace(os.path.dirname(out['sb']), '{ROOT}')}); "
+                       f"_check_single_snapshot status {r['snap_status']}, opened outside: {len(r['opened_outside'])}"
+                       for r in out["results"] if r["res"][0] == "ok" and ((r["link_prefix"] and not P.inside(r["result_real"], out["realbase"])) or r["opened_outside"])]
+            if details:
+                ctx.known_reproduced.append((f, "; ".join(details)[:500]))
+            continue
+        job = {"kind": w.get("tree", "base"), "seed": w.get("tree_seed", 0), "paths": list(w["paths"]), "tools": True, "tag": "kf"}
+        out = PW.run_paths_chunk(job)
+        details = []
+        for rec in out["results"]:
+            acc = [c for c, (ok, _r) in rec["val"].items() if ok is True]
+            wrote = [n for n, ob in rec["eps"].items() if not ob["refused"]]
+            if rec["cls"]["must_refuse"] and CLASSES[f["cls"]](rec) and (acc or wrote):
+                details.append(f"{rec['p']}: accepted by {'/'.join(acc) or '-'}; not refused by {'/'.join(wrote) or '-'}")
+        if details:
+            ctx.known_reproduced.append((f, "; ".join(details)[:400]))
+
+
 def run(ctx: vlib.Ctx):
-    raise NotImplementedError
+    ctx.rule = ("path strings: every sequence of <= D segments of the property's alphabet (relative and absolute) on the base tree + seeded random "
+                "paths on trees with random link targets; schema names: every string of length <= L over 10 character classes; frozen references and "
+                "source URIs: pools + every single-character mutation / every segment sequence; a case is non-trivial unless the string is empty; "
+                "distinct = distinct (input string, tree)")
+    ctx.translate(PROJECT)
+    proj = ctx.lean(PROJECT, PROPS)
+    if vlib.fingerprints_changed(ctx.prop, ANCHORS):
+        ctx.widen = max(ctx.widen, 8)
+        ctx.notes.append("fingerprint of a modelled function changed: search widened")
+    findings = [f for f in vlib.load_findings(ctx.prop) if f["cls"] in CLASSES]
+    if ctx.replay:
+        return run_replay(ctx, proj, findings)
+    replay_findings(ctx, findings)
+    drv = proj.driver()
+    stage_paths(ctx, drv, findings)
+    stage_schema(ctx, drv)
+    stage_frozen(ctx, drv)
+    stage_uri(ctx, drv, findings)
+    finish_meta(ctx)
+
+
+def finish_meta(ctx):
+    ctx.trusted = ["Lean 4.33.0 kernel; axioms per theorem in coverage.theorems",
+                   "tools/gen/paths.py (Gen/Paths.lean: extension lists, patterns, search order, shapes of the symlink tests, flattened op programs)",
+                   "correspondence: tools/props/c19.py + tools/harness/paths_*.py (differential, exhaustive small scope on real directory trees)",
+                   "observation layer: sys.addaudithook events + lstat snapshots (CPython raises the events in C)",
+                   "modelled, not verified: control flow of the three validators, posixpath.realpath, pathlib.exists/is_symlink/resolve (Model/Paths.lean)",
+                   "OS semantics of Model/Paths.lean: lstat/stat/readlink of a static tree, NAME_MAX=255, ELOOP only on genuine cycles (chains < 40 links)"]
+    ctx.assumptions = ["the file system does not change between validation and use (time-of-check/time-of-use is outside the model)",
+                       "H (SHA-256) is an arbitrary function in the theorems; the correspondence instantiates it with hashlib",
+                       "fuel: theorems hold for every fuel; the driver uses 100000 and reports exhaustion separately (never observed)"]
+
+
+def run_replay(ctx, proj, findings):
+    data = json.loads(open(ctx.replay).read())
+    case = data.get("case", {})
+    drv = proj.driver()
+    if "path" in case:
+        job = {"kind": case.get("tree", "base"), "seed": case.get("tree_seed", 0), "paths": [case["path"]], "tools": True, "tag": "rp"}
+        out = PW.run_paths_chunk(job)
+        rep = drv.batch([{"op": "fs", "nodes": out["nodes"], "cwd": comps(out["cwd"])}] + [{"op": "vp", "p": case["path"].replace("{SB}", out["cwd"])}])
+        compare_paths(ctx, job, out, rep[1:])
+        for rec in out["results"]:
+            ctx.case(case)
+            judge(ctx, rec, job, findings)
+        print(json.dumps({"impl": out["results"], "model": rep[1:]}, indent=1, default=str)[:3000])
+    elif "schema_name" in case:
+        ctx.thorough = False
+        global SCHEMA_EXTRA
+        names = [case["schema_name"]]
+        out = PW.run_schema_chunk({"names": names})
+        print(json.dumps(out["results"], indent=1)[:3000])
+    else:
+        print("replay: unsupported case kind; re-run the check with the recorded seed", file=sys.stderr)
+    finish_meta(ctx)
